@@ -154,6 +154,10 @@ impl LeafH {
             if failing {
                 return Err(own(|| mk_error(script.res.0, script.res.1)));
             }
+            if script.items.is_empty() && script.hdr.is_empty() {
+                // a query that answers nothing and never looks at the unit's status
+                return Ok(());
+            }
             lib(|| r.finish())
         } else if failing {
             Err(own(|| mk_error(script.res.0, script.res.1)))
